@@ -788,6 +788,50 @@ theorem rejected_prepare_counterexample :
 
 /-! ## non-vacuity: the hypotheses are satisfiable, the theorems say something -/
 
+/-- `lit_value_total` / `write_never_plain` on a literal that is NOT bytea escape text – `C:\k` followed by a line
+break: the hypotheses of `write_never_plain` hold for it, `DecodeEscaped` fails with `ErrDecodeOctalString`, and
+the coder hands the chain the five bytes of the text itself (so the theorem's conclusion is about a real case). -/
+example :
+    let s : ColSetting := { kind := .block }
+    let b : Bytes := [67, 58, 92, 107, 10]
+    (¬ (s.textTyped = false ∧ ∃ h, b = 92 :: 120 :: h ∧ Wire.Bytea.hexDecode h = none)) ∧
+    (b ≠ [] ∧ ¬ (s.textTyped = false ∧ b = [92, 120])) ∧
+    Wire.Bytea.decodeEscaped b = .error .octal ∧ decodeLit s b = some b ∧
+    (∀ (c : CryptoOps) (kvW kvR : KeyView) (rnd : Bytes), ∃ raw, decodeLit s b = some raw ∧ raw ≠ []) := by
+  intro s b
+  have hoct : Wire.Bytea.decodeEscaped b = .error .octal := by
+    have hr : Wire.Bytea.toRunes b = [67, 58, 92, 107, 10] := by
+      rw [Wire.Bytea.toRunes_ascii b (by decide)]; rfl
+    have : Wire.Bytea.decodeOctal b = none := by
+      unfold Wire.Bytea.decodeOctal
+      rw [hr]; decide
+    simp [Wire.Bytea.decodeEscaped, b, this]
+  have hx : ¬ (s.textTyped = false ∧ ∃ h, b = 92 :: 120 :: h ∧ Wire.Bytea.hexDecode h = none) := by
+    rintro ⟨_, h, hb, _⟩
+    simp [b] at hb
+  have he : b ≠ [] ∧ ¬ (s.textTyped = false ∧ b = [92, 120]) := ⟨by decide, by decide⟩
+  refine ⟨hx, he, hoct, ?_, ?_⟩
+  · rw [decodeLit, pgDecodeSval_eq fact_decodeEscaped_returns, hoct]
+    rfl
+  · intro c kvW kvR rnd
+    obtain ⟨raw, h1, h2, _⟩ := write_never_plain c kvW kvR s b rnd hx he
+    exact ⟨raw, h1, h2⟩
+
+/-- the coder's only error: `\xZZ` in a column without text type – and the statement that carries it next to
+another protected literal is forwarded as received (`fail_open_statement`), here on the statement level with the
+real transformer: the first protected cell fails, nothing is rewritten. -/
+example :
+    let t : Table := { name := "t", columns := ["id", "a", "b"], encrypted := [("a", { kind := .block }), ("b", { kind := .block, dtype := .str })] }
+    let st : Stmt := .insert { table := "t", cols := [], rows := [[.num [49], .lit [92, 120, 90, 90], .lit [83, 69, 67, 82, 69, 84]]] }
+    decodeLit { kind := .block } [92, 120, 90, 90] = none ∧
+    forwardStmt toyOps ⟨none, none, some [1, 2, 3], none⟩ [t] st [] = st := by
+  intro t st
+  have h : decodeLit { kind := .block } [92, 120, 90, 90] = none := by
+    rw [decodeLit, pgDecodeSval_eq fact_decodeEscaped_returns]
+    decide
+  refine ⟨h, ?_⟩
+  simp [forwardStmt, xfStmt, xfInsertStmt, xfInsert, Schema.table, t, st, insertColumns, xfRows, xfRow, Table.setting, encCell, h]
+
 /-- `sql_prepare_pairs` on the run of the seeded change C04-6: `PREPARE q AS 1; EXECUTE q; DEALLOCATE q;
 PREPARE q AS 2; EXECUTE q` – same query text `EXECUTE q` twice, nothing with rows in between: the first row is
 processed with statement 1, the second with statement 2; then `DEALLOCATE ALL`, `PREPARE q AS 3`, `EXECUTE q`
